@@ -362,6 +362,23 @@ def bounded_case(args):
             tmp = tempfile.mkdtemp(prefix='c14_')
             code_map = os.path.join(tmp, 'map.log')
             addrs = sorted(set(rnd.randrange(start, end) for _ in range(rnd.randrange(1, max(2, L // 3 + 1)))))
+            if L >= 10 and rnd.random() < 0.4:
+                # a real execution trace through overlapping code: a relative jump over one byte that, decoded linearly,
+                # is the opcode of a longer instruction swallowing the jump target
+                g = rnd.randrange(start, end - 9)
+                hide = rnd.choice((0xC3, 0x21, 0xCD, 0x01, 0x11, 0x3E, 0x06, 0xDD, 0x36))
+                body = []
+                trace = [g, g + 3]
+                for _ in range(rnd.randrange(1, 3)):
+                    ins = rnd.choice(([0x3E, 0x00], [0x00], [0xAF], [0x06, 0x07], [0x23]))
+                    body += ins
+                    trace.append(g + 3 + len(body))
+                body += [0xC9]
+                gadget = [rnd.choice((0x18, 0x28, 0x20, 0x38)), 0x01, hide] + body
+                if g + len(gadget) <= end:
+                    for i, b in enumerate(gadget):
+                        snap[g + i] = b
+                    addrs = sorted(set(trace))
             with open(code_map, 'w') as f:
                 for a in addrs:
                     f.write('$%04X\n' % a)
